@@ -205,9 +205,82 @@ def rec_ff(rnd, tid):
                                    "args": f"fully_factorized({n})"}
 
 
-MAKERS = [rec_cp, rec_tucker, rec_tt, rec_hmm, rec_ff]
+def rec_logic(rnd, tid):
+    """a random deterministic, decomposable formula (decision DAG over <= 4 variables)"""
+    from cirkit.templates.logic.graph import (  # pylint: disable=import-outside-toplevel
+        ConjunctionNode, DisjunctionNode, LiteralNode, LogicalCircuit, NegatedLiteralNode)
+    nv = rnd.choice([1, 2, 3, 4])
+    nodes, in_nodes, recs = [], {}, []
+    lits = {}
+
+    def lit(v, pos):
+        if (v, pos) not in lits:
+            n = LiteralNode(v) if pos else NegatedLiteralNode(v)
+            nodes.append(n)
+            recs.append({"t": "lit" if pos else "nlit", "v": v, "ins": []})
+            lits[(v, pos)] = len(nodes)
+        return lits[(v, pos)]
+
+    def mk(kind, ins):
+        n = ConjunctionNode() if kind == "and" else DisjunctionNode()
+        nodes.append(n)
+        in_nodes[n] = [nodes[i - 1] for i in ins]
+        recs.append({"t": kind, "v": 0, "ins": list(ins)})
+        return len(nodes)
+
+    def gen(vs):
+        vs = list(vs)
+        x = vs[0]
+        rest = vs[1:]
+        if not rest:
+            c = rnd.choice(["p", "n", "both"])
+            if c == "p":
+                return lit(x, True)
+            if c == "n":
+                return lit(x, False)
+            return mk("or", [lit(x, True), lit(x, False)])
+
+        def sub():
+            k = rnd.randint(1, len(rest))
+            return gen(sorted(rnd.sample(rest, k)))
+        shape = rnd.choice(["both", "pos", "neg"])
+        if shape == "pos":
+            return mk("and", [lit(x, True), sub()])
+        if shape == "neg":
+            return mk("and", [lit(x, False), sub()])
+        return mk("or", [mk("and", [lit(x, True), sub()]), mk("and", [lit(x, False), sub()])])
+
+    order = list(range(nv))
+    rnd.shuffle(order)
+    root = gen(order)
+    if recs[root - 1]["t"] in ("lit", "nlit"):
+        # a formula that is a single literal has no inner node (degenerate: the logic graph is
+        # rebuilt from its inner nodes only); use the tautology-free formula  x or (not x and ...)
+        root = mk("or", [root])
+    used = sorted({r["v"] for r in recs if r["t"] in ("lit", "nlit")})
+    remap = {v: i for i, v in enumerate(used)}           # only the variables that appear
+    # rebuild with contiguous variable ids
+    nodes2, in2, idx = [], {}, {}
+    for i, r in enumerate(recs, start=1):
+        if r["t"] in ("lit", "nlit"):
+            r["v"] = remap[r["v"]]
+            n = LiteralNode(r["v"]) if r["t"] == "lit" else NegatedLiteralNode(r["v"])
+        else:
+            n = ConjunctionNode() if r["t"] == "and" else DisjunctionNode()
+            in2[n] = [idx[k] for k in r["ins"]]
+        idx[i] = n
+        nodes2.append(n)
+    lc = LogicalCircuit(nodes2, in2, [idx[root]])
+    c = lc.build_circuit()
+    shape = [2] * len(used)
+    return c, shape, Valuation(tid), True, {"kind": "logic", "nodes": recs, "root": root,
+                                           "args": f"logic formula over {len(used)} variables, {len(recs)} nodes"}
+
+
+MAKERS = [rec_cp, rec_tucker, rec_tt, rec_hmm, rec_ff, rec_logic]
 EMPTY = {"A": [], "w": [], "G": [], "rank": 0, "V1": [], "Vin": [], "Vn": [], "ord": [], "K": 0,
-         "E": [], "T": [], "pi": [], "cats": [], "want_cats": [], "P": []}
+         "E": [], "T": [], "pi": [], "cats": [], "want_cats": [], "P": [], "nodes": [], "root": 0,
+         "mc": 0}
 
 
 def record(args):
@@ -225,6 +298,19 @@ def record(args):
         fl = flags[(tid // len(MAKERS)) % len(flags)]
         rec["flags"] = list(fl)
         rec["obs"] = evaluate(c, shape, val, fl, positive)
+        if rec["kind"] == "logic":
+            import cirkit.symbolic.functional as SF  # pylint: disable=import-outside-toplevel
+            comp = TorchCompiler(semiring=fl[0], fold=fl[1], optimize=fl[2])
+            comp.compile(c)
+            zc = comp.compile(SF.integrate(c))
+            with torch.no_grad():
+                z = zc().reshape(-1)[0]
+            if fl[0] != "sum-product":
+                z = torch.exp(z)
+            z = float(z.real if z.is_complex() else z)
+            if abs(z - round(z)) > 1e-6:
+                raise ValueError(f"non-integer model count {z}")
+            rec["mc"] = int(round(z))
     except Exception as e:  # pylint: disable=broad-except
         rec["ok"] = False
         rec["why"] = repr(e)[:300] + " | " + traceback.format_exc()[-500:]
